@@ -39,9 +39,12 @@ class AsVectorMonitor(taps.Monitor):
 
     def pre(self, ctx, args, kw):
         o = args[0]
-        if not taps.is_menpo(o) or kw or len(args) > 1:
+        if not taps.is_menpo(o):
             return None
-        return {"d": digest(o), "w": writeable_flags(o)}
+        kc = bool(kw.get("keep_channels", args[1] if len(args) > 1 else False))
+        if (kw and set(kw) != {"keep_channels"}) or len(args) > 2:
+            return None
+        return {"d": digest(o), "w": writeable_flags(o), "kc": kc}
 
     def post(self, ctx, st, args, kw, v, exc):
         o = args[0]
@@ -51,6 +54,16 @@ class AsVectorMonitor(taps.Monitor):
                 ctx.see("not_vectorizable", (cls, getattr(o, "n_dims", None)))
                 return
             ctx.fail("as_vector_raised", cls=cls, mech=type(exc).__name__, error=repr(exc)[:200])
+            return
+        if st["kc"]:
+            # the documented channel-wise form of an image's vector: the same numbers as (channels, n) - read-only all the same
+            ctx.tap("as_vector_keep_channels", "calls"); ctx.tap("as_vector_keep_channels", "checked")
+            if not isinstance(v, np.ndarray) or v.ndim != 2:
+                ctx.fail("as_vector_not_one_dimensional", cls=cls, mech="keep_channels:" + str(getattr(v, "shape", None)))
+            elif v.flags.writeable:
+                ctx.fail("as_vector_result_is_writeable", cls=cls, mech="keep_channels")
+            if digest(o) != st["d"]:
+                ctx.fail("as_vector_changed_the_object", cls=cls, mech="keep_channels")
             return
         if not isinstance(v, np.ndarray) or v.ndim != 1:
             ctx.fail("as_vector_not_one_dimensional", cls=cls, mech=str(getattr(v, "shape", None)))
@@ -362,6 +375,11 @@ def w_objects(ctx, rng, i):
         return
     n = len(v)
     kinds = []
+    import menpo.image as _mi
+    if isinstance(o, _mi.Image):
+        vk = o.as_vector(keep_channels=True)
+        if np.asarray(vk).reshape(-1).shape != np.asarray(v).shape or not np.array_equal(np.asarray(vk).reshape(-1), np.asarray(v)):
+            ctx.fail("as_vector_not_repeatable", cls=cls, mech="keep_channels_form_holds_other_numbers")
     # (1) the read-only result of as_vector handed straight back
     r = o.from_vector(v)
     kinds.append("own")
